@@ -99,6 +99,10 @@ impl Outcome {
     pub fn is_error(&self) -> bool {
         matches!(self, Outcome::Error { .. })
     }
+    /// keep the variant, drop the text (used for "no response" markers)
+    pub fn clone_with(&self, _note: String) -> Outcome {
+        self.clone()
+    }
 }
 
 fn urg(u: SnapshotUrgency) -> Urg {
